@@ -86,7 +86,20 @@ def post(impl_exe, tier, seed):
             if steady[i] > steady[i - 1] + 64:
                 prev = names[3 + i - 1]
                 ops = dict(st["cases"]).get(prev, [])
-                fails.append(("%d bytes still allocated after tearing down the connections of case %s" % (steady[i] - steady[i - 1], prev),
-                              "# property=C19 stream=%s mode=%s\ncase %s\n%s\n" % (st["stream"], st["mode"], prev, "\n".join(ops))))
-                break
+                # Growth between two teardowns can also be a buffer of the harness or of the runtime reaching a new
+                # size once (seen with seed 3: 368 bytes, once). A leak of the library grows again every time the same
+                # case is run: repeat the case in a fresh process and compare the later repetitions with each other.
+                rp = os.path.join(d, "repeat.script")
+                with open(rp, "w") as f:
+                    for k in range(6):
+                        f.write("case rep%d\n" % k + "\n".join(ops) + "\n")
+                    f.write("case end\n")
+                q = subprocess.run([impl_exe, st["mode"], rp], stdout=subprocess.PIPE, stderr=subprocess.PIPE, env=env, timeout=900)
+                rl = [int(m.group(1)) for m in re.finditer(r"^mem live=(\d+) ", q.stdout.decode("utf-8", "replace"), re.M)]
+                # rl[k] = live bytes after the teardown of repetition k (k = 0..5)
+                if len(rl) >= 6 and rl[5] > rl[2] + 64 and rl[4] > rl[2] and rl[5] > rl[3]:
+                    fails.append(("%d bytes more stay allocated after every run of case %s (teardown included): %s" % ((rl[5] - rl[2]) // 3, prev, rl),
+                                  "# property=C19 stream=%s mode=%s\ncase %s\n%s\n" % (st["stream"], st["mode"], prev, "\n".join(ops))))
+                    break
+                stats["one_time_growth"] = stats.get("one_time_growth", 0) + 1
     return fails, stats
